@@ -3,6 +3,7 @@
 mod alloc;
 mod canon;
 mod cases;
+mod master;
 mod query;
 mod ser;
 mod rd;
